@@ -31,6 +31,7 @@ CORPUS = [
     "(fn [x y] (operator/is_not x 7))", "(fn [x] (operator/truth x))", "(fn [x y] [(bit-and x y) (bit-or x y) (bit-xor x y) (bit-shift-left x y)])",
     "(fn [x y] (let [a (* x y) b (mod x y)] (do a b (= a b))))", "(def ^:dynamic *q* 1)", "(fn [] (do 1 2 3))",
     "(fn [x] (when x (throw (ex-info \"x\" {})) 5))", "(fn [coll] (for [x coll :when (odd? x)] (* x x)))",
+    "(fn [x] (try x (finally 2)))", "(fn [x] (try (x) (finally nil)))", "(fn [x] (do (try (x) (finally (if x 1 2))) 3))",
 ]
 
 
@@ -81,7 +82,8 @@ def capture_pairs():
     with rt.ns_bindings("verif.c15"):
         import importlib as _il
         for src in ["(import operator)"] + CORPUS:
-            for opts in (None, {"inline-functions": False}):
+            from basilisp.lang import keyword as _kw, map as _lmap
+            for opts in (None, _lmap.map({_kw.keyword("inline-functions"): False})):
                 ctx = cc.CompilerContext("<c15>", opts=opts)
                 for form in rd.read_str(src):
                     cc.compile_and_exec_form(form, ctx, ns)
